@@ -54,6 +54,9 @@ int main(void) {
 	for (int step = 0; step < OMAX; step++) {
 		if (i >= n) break;
 		char c = o[i];
+#ifdef RAW_IDENTITY
+		dec[m++] = c; i++; continue;       /* a verbatim environment: nothing is escaped, the output IS the text */
+#endif
 		if (c == '\\') {
 			char d = o[i + 1];
 			if (d == '#' || d == '{' || d == '}' || d == '$' || d == '%' || d == '&' || d == '_') { dec[m++] = d; i += 2; }
